@@ -504,6 +504,12 @@ Definition cres := (option nat * Z * option (verdict * Z))%type.
 Definition case_plugin :=
   (list (qkey * par) * list cact * list (option Z) * list cres)%type.
 
+(* NOT EVALUATED BY ANY SUITE (superseded): suite plugin is declared with
+   Scrape.run_mplugin (histories with metrics reads), of which this function is
+   the special case without reads.  [cact] / [expand] / [expand_all] / [cres]
+   above ARE used by run_mplugin.  Kept only for Bridge.run_plugin_accepts; the
+   accepted-case theorem of the suite is C10_accepted_plugin_case_is_a_run,
+   stated for run_mplugin. *)
 Definition run_plugin (k : case_plugin) : option (list Z * list (option (verdict * Z))) :=
   let '(tbl, cacts, counts, results) := k in
   match expand_all tbl cacts with
